@@ -275,7 +275,7 @@ static CodecCase gen_codec() {
   c.sy = (int)R(0, c.src.h - c.h);
   c.dx = (int)R(0, c.dst.w - c.w);
   c.dy = (int)R(0, c.dst.h - c.h);
-  c.acc = (int)R(1, 3) | (coin(35) ? 4 : 0) | (coin(50) ? 8 : 0);  // +4: read callback only on the source; +8: translating callbacks
+  c.acc = (int)R(1, 3) | (coin(35) ? 4 : 0) | (coin(50) ? 8 : 0) | (coin(30) ? 16 : 0);  // +4: read callback only on the source; +8: translating callbacks
   c.op = coin(70) ? PIXMAN_OP_SRC : (int)pick<int>({PIXMAN_OP_OVER, PIXMAN_OP_ADD, PIXMAN_OP_IN, PIXMAN_OP_XOR});
   return c;
 }
@@ -387,6 +387,13 @@ static Verdict run_codec(const CodecCase &c) {
   auto scramble = [](Image &im, uint32_t key) {
     for (size_t i = 0; i < im.buf.size; i++) im.buf.p[i] ^= (uint8_t)key;
   };
+  if (c.acc & 16) {
+    // the images have been drawn with before the callbacks are installed ("+16"): installing them must take effect on
+    // an image whose derived state was already computed (seeded C10a)
+    pixman_image_composite32((pixman_op_t)c.op, src->im, nullptr, d1->im, c.sx, c.sy, 0, 0, c.dx, c.dy, c.w, c.h);
+    pixman_image_composite32((pixman_op_t)c.op, src2->im, nullptr, d2->im, c.sx, c.sy, 0, 0, c.dx, c.dy, c.w, c.h);
+    v.label("callbacks_installed_after_first_use");
+  }
   if (scr_src) {
     g_key[0] = 0xa5;
     scramble(*src2, 0xa5);
